@@ -4,7 +4,7 @@ HERE = os.path.dirname(os.path.dirname(os.path.abspath(__file__)))
 rows = ["| change | needs, in order to manifest | result of the checks |", "|---|---|---|"]
 def key(p):
     n = os.path.basename(os.path.dirname(p))
-    m = re.match(r"(C\d+)-(r?)(\d+)", n)
+    m = re.match(r"(C\d+)-([a-z]?)(\d+)", n)
     return (m.group(1), m.group(2), int(m.group(3)))
 for d in sorted(glob.glob(os.path.join(HERE, "seeded", "*", "meta.json")), key=key):
     m = json.load(open(d))
